@@ -397,6 +397,19 @@ def _parse_parts(document, part_dict, ignore_invisible_objects=False):
                 ignore_invisible_objects,
             )
 
+        # tie stops for which no tie start ends exactly at their onset: use
+        # the latest still open tie of the same pitch that starts earlier
+        for k, early_stops in ongoing.items():
+            if k[:2] == ("tie", "stop"):
+                open_ties = ongoing.get(("tie",) + k[2:], [])
+                for note in early_stops:
+                    earlier = [n for n in open_ties if n.start.t < note.start.t]
+                    if earlier:
+                        tie_prev = max(earlier, key=lambda n: n.start.t)
+                        note.tie_prev = tie_prev
+                        tie_prev.tie_next = note
+                        open_ties.remove(tie_prev)
+
         # complete unfinished endings
         for o in part.iter_all(score.Ending, mode="ending"):
             if o.start is None:
@@ -1441,15 +1454,29 @@ def _handle_note(e, position, part, ongoing, prev_note, doc_order, prev_beam=Non
             # here is the one whose note ends where this note starts
             open_ties = ongoing.get(tie_key, [])
             candidates = [n for n in open_ties if n.end.t == position]
-            tie_prev = (candidates or open_ties or [None])[-1]
+            tie_prev = (candidates or [None])[-1]
 
             if tie_prev:
                 note.tie_prev = tie_prev
                 tie_prev.tie_next = note
                 open_ties.remove(tie_prev)
+            else:
+                # the note that starts this tie may come later in the
+                # document (e.g. in another voice of the same measure);
+                # stops that stay unmatched are resolved in _parse_parts
+                ongoing.setdefault(("tie", "stop") + tie_key[1:], []).append(note)
 
         if "start" in tie_types:
-            ongoing.setdefault(tie_key, []).append(note)
+            early_stops = ongoing.get(("tie", "stop") + tie_key[1:], [])
+            tie_next = next(
+                (n for n in early_stops if n.start.t == position + duration), None
+            )
+            if tie_next is not None:
+                note.tie_next = tie_next
+                tie_next.tie_prev = note
+                early_stops.remove(tie_next)
+            else:
+                ongoing.setdefault(tie_key, []).append(note)
 
     notations = e.find("notations")
 
